@@ -441,7 +441,8 @@ pub fn remove_call(p: &Program, j: usize) -> Option<Program> {
 /// FRESH public inputs — then every input of the copy is connected to its original (so the copy
 /// is an op-level duplicate that expression-level CSE cannot see), the copy's last result is
 /// pinned to one more public input `p`, and three consumers read `p`, the original result and the
-/// copy's operands: `p*i0`, `o*i0`, `o*i0'`, summed. `None` if `p` has no value call, uses
+/// copy's operands: `p*i0`, `o*i0`, `o*i0'`, summed, plus two Horner steps whose accumulator is the
+/// copy's result resp. the original result. `None` if `p` has no value call, uses
 /// private inputs, hints or assertions, or would exceed 255 handles.
 pub fn duplicate_with_aliases(p: &Program) -> Option<Program> {
     #[derive(Clone, Copy)]
@@ -471,7 +472,7 @@ pub fn duplicate_with_aliases(p: &Program) -> Option<Program> {
         resolved.push((c.clone(), ops));
     }
     let n0 = kinds.len();
-    if resolved.is_empty() || 2 * n0 + 8 > 250 {
+    if resolved.is_empty() || 2 * n0 + 12 > 250 {
         return None;
     }
     let first_input = kinds.iter().position(|k| matches!(k, K::Input))?;
@@ -536,5 +537,16 @@ pub fn duplicate_with_aliases(p: &Program) -> Option<Program> {
     calls.push(Call::Add(Opnd::H(m1), Opnd::H(m2)));
     let s1 = m3 + 1;
     calls.push(Call::Add(Opnd::H(s1), Opnd::H(m3)));
+    // Horner steps whose ACCUMULATOR is the copy's result resp. the original result (the
+    // accumulator is carried in its own slot of the op, not in the a/b/c operands), with the
+    // other one among the plain operands
+    let s2 = s1 + 1;
+    calls.push(Call::Horner(Opnd::H(copy_res), Opnd::H(i0), Opnd::H(last_res as u8), Opnd::H(i0c)));
+    let h1 = s2 + 1;
+    calls.push(Call::Horner(Opnd::H(last_res as u8), Opnd::H(i0c), Opnd::H(copy_res), Opnd::H(i0)));
+    let h2 = h1 + 1;
+    calls.push(Call::Add(Opnd::H(h1), Opnd::H(h2)));
+    let t1 = h2 + 1;
+    calls.push(Call::Add(Opnd::H(s2), Opnd::H(t1)));
     Some(Program { calls })
 }
